@@ -66,7 +66,7 @@ def check(col: Collector, tier: str):
     from sa.props.c16 import JOB_STEP, SCRIPTS
     col.floor("C04.R7", 3)
     for key, rel in SCRIPTS.items():
-        root, cmds = parse_script((REPO / rel).read_text())
+        root, cmds = parse_script(__import__('sa.core.shell_alpha', fromlist=['x']).runner_source(REPO / rel))
         tool, needle = JOB_STEP[key]
         jobs = [c for c in cmds if c.node.name == tool and needle in " ".join(c.node.args)]
         first = [c for c in cmds if not c.ctx.startswith("subst")][0].node
